@@ -186,6 +186,7 @@ CHECKS = {
         text="For limits 1..3 (thorough 1..5) in both directions and three chain positions (alone, outermost and innermost of logging,size_limit,headers) every handler program of the product {GET, HEAD} x {implicit, 200, 201, 204, 301, 304, 404, 500} x every ordered partition into writes of bodies of L-1, L, L+1, L+3 bytes x {no flush, flush before the first write, flush after each write} x declared length is served directly under the chain built by the public BuildChain behind a real http.Server, once with and once without size_limit, and read by the raw client; within the limit the two responses must be identical (status, header multiset, body), over the limit the client gets at most L body bytes, a well-formed 413 when the first write already exceeds the limit before anything was sent. The same programs as a backend behind the real balancer and reverse proxy, and uploads of L-1, L, L+1, 4L bytes in both framings (backend reads <= L, declared oversize => 413 without contacting the backend, exactly L passes).",
         note="Behind the reverse proxy a response of undeclared length has its header flushed by the proxy before the first body byte, so the must-be-413 clause is applied to declared-length responses there; backend accounting is attributed to exchanges by a sequence header.",
         jobs=[
+            dict(name="c14hist", part="Hist", pkg=MAIN, run="TestVerifC14Hist", mode="plain", gomaxprocs=1, shards=dict(quick=15, thorough=15), timeout=dict(quick=600, thorough=3000)),
             dict(name="c14w", part="W", pkg=MAIN, run="TestVerifC14", mode="plain", gomaxprocs=4, shards=dict(quick=12, thorough=16), timeout=dict(quick=600, thorough=3000)),
         ],
         assumptions=[],
